@@ -79,6 +79,18 @@ func c10Exercise(data []byte, roots []ed25519.PublicKey) string {
 			a.Reset()
 		}
 	}
+	// key lookup by identifier: the identifier (or its absence) is the sender's choice
+	if len(roots) > 0 {
+		def := roots[0]
+		for _, ks := range []biscuit.PublickKeyByIDProjection{
+			biscuit.WithRootPublicKeys(map[uint32]ed25519.PublicKey{}, nil),
+			biscuit.WithRootPublicKeys(nil, nil),
+			biscuit.WithRootPublicKeys(map[uint32]ed25519.PublicKey{0: roots[0]}, nil),
+			biscuit.WithRootPublicKeys(map[uint32]ed25519.PublicKey{4294967295: roots[0]}, &def),
+		} {
+			tok.AuthorizerFor(ks, hx.LongLimits)
+		}
+	}
 	// signature checking skipped: whatever Unmarshal accepted can be evaluated by NewVerifier too
 	if a, err := biscuit.NewVerifier(tok, hx.LongLimits); err == nil {
 		hx.Load(a, c10Panel[1].blk, c10Panel[1].pol)
